@@ -166,9 +166,13 @@ func (t *Typedef) resolve(d *typeDictionary) []error {
 // resolve resolves Type t, as well as the underlying typedef for t.  If t
 // cannot be resolved then one or more errors are returned.
 func (t *Type) resolve(d *typeDictionary) (errs []error) {
-	if t.YangType != nil {
+	if t.YangType != nil && !t.unresolved {
 		return nil
 	}
+	// A type that did not resolve cleanly is resolved again on the next
+	// call: a later run must find the same errors, or succeed once the
+	// missing pieces have been loaded.
+	defer func() { t.unresolved = len(errs) != 0 }()
 
 	// If t.Name is a base type then td will not be nil, otherwise
 	// td will be nil and of type *Typedef.
